@@ -345,12 +345,21 @@ pub fn run(check: &mut Check) {
     let corpus = backends::corpus();
     let ncorpus = check.tier.pick(14usize, corpus.len());
     let stride = (corpus.len() / ncorpus).max(1);
-    for (i, (name, path, text)) in corpus.iter().enumerate() {
-        if i % stride != 0 {
-            continue;
+    // (file index, variant index): a strided sample with rotating variants, plus the files
+    // with many structurally equal types under --merge-structurally-equal-types
+    let merge_idx = vars.iter().position(|v| v.0 == "merge-equal").unwrap();
+    let mut picks: Vec<(usize, usize)> = (0..corpus.len()).filter(|i| i % stride == 0).map(|i| (i, i % vars.len())).collect();
+    for (i, (name, _, _)) in corpus.iter().enumerate() {
+        if ["records.wit", "variants.wit", "flags.wit", "lists.wit", "resources.wit", "simple-functions.wit", "multi-return.wit", "smoke.wit"].contains(&name.as_str()) || check.tier == vcommon::Tier::Thorough {
+            picks.push((i, merge_idx));
         }
+    }
+    picks.sort();
+    picks.dedup();
+    for (i, vi) in picks {
+        let (name, path, text) = &corpus[i];
         let Ok((resolve, world)) = backends::resolve_input(&Input::Path(path), None) else { continue };
-        let (variant, args) = vars[i % vars.len()].clone();
+        let (variant, args) = vars[vi].clone();
         if backends::corpus_excluded(name, text, "rust", variant) {
             continue;
         }
@@ -381,17 +390,44 @@ pub fn run(check: &mut Check) {
         let all = backends::variants("rust");
         let variant_idx = all.iter().position(|v| v.0 == vars[vi].0).unwrap() as u8;
         let c = WorldCase { tape, backend: rust_index(), variant: variant_idx };
-        let Some(p) = crate::c16::prepare_with(&c, |p| p.extra_names = RUST_NAMES.to_vec()) else { continue };
+        // option combinations: every third world gets a second option on top of its variant's
+        const EXTRA: &[&str] = &["--merge-structurally-equal-types", "--ownership=borrowing", "--raw-strings", "--std-feature"];
+        let extra: Option<&'static str> = if i % 3 == 2 { Some(EXTRA[(i / 3) % EXTRA.len()]) } else { None };
+        let base_variant = vars[vi].0;
+        let extra = extra.filter(|e| !vars[vi].1.contains(e) && !(base_variant.starts_with("borrowed") && e.starts_with("--ownership")));
+        let merge = base_variant == "merge-equal" || extra == Some("--merge-structurally-equal-types");
+        let no_async = matches!(extra, Some("--ownership=borrowing") | Some("--raw-strings"));
+        let Some(mut p) = crate::c16::prepare_with(&c, |p| {
+            p.extra_names = RUST_NAMES.to_vec();
+            // structurally equal types with different uses matter to the merge option
+            p.near_equal_types = merge;
+            if no_async && (known.iter().any(|k| k == backends::KF_RUST_BORROWING_ASYNC_IMPORT) || known.iter().any(|k| k == backends::KF_RUST_RAW_STRINGS_PAYLOAD)) {
+                p.async_ = false;
+                p.async_funcs = false;
+            }
+        }) else {
+            continue;
+        };
+        let variant_name: String = match extra {
+            // classification of listed findings goes by the leading option
+            Some("--ownership=borrowing") => format!("borrowed+{base_variant}"),
+            Some("--raw-strings") => "raw-strings".to_string(),
+            Some(e) => format!("{base_variant}+{}", e.trim_start_matches("--")),
+            None => base_variant.to_string(),
+        };
+        if let Some(e) = extra {
+            p.args.push(e);
+        }
         let tmp = tempfile::tempdir().unwrap();
         if let GenOutcome::Files(f) = backends::generate("rust", &p.args, &p.resolve, p.world, Some(tmp.path())) {
             if let Some((_, b)) = f.iter().find(|(n, _)| n.ends_with(".rs")) {
                 members.push(Member {
-                    label: serde_json::json!({"tape_len": c.tape.len(), "variant": p.variant, "wit": if p.text.len() < 400 { p.text.clone() } else { format!("{}...", &p.text.chars().take(400).collect::<String>()) }}),
+                    label: serde_json::json!({"tape_len": c.tape.len(), "variant": variant_name, "wit": if p.text.len() < 400 { p.text.clone() } else { format!("{}...", &p.text.chars().take(400).collect::<String>()) }}),
                     bindings: String::from_utf8_lossy(b).to_string(),
                     world: p.world,
-                    variant: p.variant.to_string(),
+                    variant: variant_name.clone(),
                     edition: if i % 2 == 0 { "2021" } else { "2024" },
-                    ctx: format!("variant {} args {:?}\nWIT:\n{}", p.variant, p.args, p.text),
+                    ctx: format!("variant {} args {:?}\nWIT:\n{}", variant_name, p.args, p.text),
                     resolve: p.resolve,
                 });
             }
